@@ -31,6 +31,8 @@ CORPUS = [
     "H I 0 :: x :: (contains x (interval (i 0) (i 1) 0 1)) ;; (contains x (interval -oo (i 1) 1 0)) ;; (contains x (interval (i 0) oo 1 1)) "
     "|| C 0000000000000000 || C 3ff0000000000000 || C 7ff8000000000000 || C fff0000000000000",
     "H I 0 :: x :: oo ;; -oo ;; nan ;; pi ;; (d 3fb999999999999a) ;; (q 1 10) || C 0000000000000000",
+    # a CSE replacement symbol (x0) with the name of an input symbol the outputs do not use
+    "H I 1 :: x0 ;; x1 :: (add (f1 sin x1) (i 1)) ;; (mul (f1 sin x1) (i 2)) || C 4059000000000000 3fe0000000000000",
     "H I 0 :: x :: zoo", "H I 0 :: x :: (contains x (fset (i 1) (i 2)))", "H I 0 :: x :: y", "H C 3ff0000000000000",
     "H I 0 :: (add x y) ;; x :: (mul (add x y) x) || C 4000000000000000 4008000000000000",
 ]
@@ -88,6 +90,8 @@ def explore(ctx, drv, model, cases, search=False):
             if item.startswith("reinit"):
                 key = "C13/reinit-after-failed-cse-init" if "stalemap" in guards else \
                     "C13/reinit-unclassified-" + hashlib.md5(c.encode()).hexdigest()[:8]
+            elif item.startswith("cse-shadow") or ((item.startswith("cse") or item.startswith("value")) and "cseshadow" in guards):
+                key = "C13/cse-symbol-shadowed-by-input"
             elif item.startswith("cse"):
                 key = "C13/cse-changes-result"
             elif item.startswith("value"):
